@@ -87,8 +87,8 @@ def endpoints_sweep(uris):
     return out
 
 
-def security_validate(ctx, g, access_out):
-    '''returns True when the tie holds'''
+def security_validate(ctx, g, access_out, failing=None):
+    '''returns True when the tie holds.  failing: what coq_props named (file or file:theorem)'''
     uris = [e['uri'] for e in access_out['endpoints']] if access_out else list(COMMANDS)
     for c in COMMANDS:
         if c not in uris:
@@ -189,7 +189,9 @@ def security_validate(ctx, g, access_out):
     elif not found:
         ctx.broken('translator security2coq.py refuses dawgie/security.py or dawgie/fe/basis.py',
                    g['msg'], {'source': 'translator'})
-    if failed and not found and g['ok'] and not bad:
+    mine = failing is None or 'SecurityGen' in str(failing) or 'C19_' in str(failing) and 'static' not in str(failing) \
+        and 'contained' not in str(failing)
+    if failed and not found and g['ok'] and not bad and mine:
         ctx.broken('source tie: Gen/SecurityGen.v (security.py / basis.py of today) is no longer proved to '
                    'be the access model of Model/Access.v',
                    'python still denies on %d sweep cases' % len(impl['sanctioned']),
